@@ -233,7 +233,12 @@ def run(p: Program, rep: Report, tier: str) -> None:
     paths, col, it = run_paths(p, cpf, base, raises=lambda c, i, callee, node: ["OSError"] if callee == ("ext", "os.stat") else [])
     for pa in paths:
         if pa.exit != "return":
-            rep.observe(f"check_path_is_file lets {pa.value} escape (C12)")
+            if pa.value == "OSError":
+                rep.violation("R7.3", construct(cpf, text="OSError of os.stat escapes"), where(cpf),
+                              "check_path_is_file lets an OSError of os.stat(path) escape: only some subclasses are handled, so a request path with a component longer than NAME_MAX "
+                              "(ENAMETOOLONG) or through a symbolic-link loop (ELOOP) is answered with an unhandled exception instead of not-found")
+            else:
+                rep.observe(f"check_path_is_file lets {pa.value} escape (C12)")
             continue
         v = pa.value
         if v[0] != "tuple" or len(v[1]) != 2:
